@@ -289,6 +289,15 @@ func c13run(sm bool, first, lives string) string {
 			case "graceful":
 				cur.Write([]byte("</stream:stream>"))
 				go func(c net.Conn) { time.Sleep(150 * time.Millisecond); c.Close() }(cur)
+			case "wfail":
+				// the client can still read but no longer write: the server's <r/> cannot be answered
+				if xt, ok := xmpp.VerifTransport(client).(*xmpp.XMPPTransport); ok {
+					if tc, ok := xmpp.VerifXMPPTransportConn(xt).(*net.TCPConn); ok {
+						tc.CloseWrite()
+					}
+				}
+				cur.Write([]byte("<r xmlns='urn:xmpp:sm:3'/>"))
+				go func(c net.Conn) { time.Sleep(400 * time.Millisecond); c.Close() }(cur)
 			}
 			if refuseMs > 0 {
 				time.Sleep(time.Duration(refuseMs) * time.Millisecond)
@@ -396,7 +405,9 @@ func (c13) Generate(rng *rand.Rand, tier string, st *Stats) []Case {
 	mk(false, "o", "drop:r,o")       // F-13d: a refused dial must be retried
 	mk(false, "o", "drop:t,p")       // permanent error ends the loop
 	mk(true, "o", "drop:o;drop:o")   // resumed sessions
-	endings := []string{"drop", "graceful"}
+	mk(true, "o", "wfail:o;drop:o")  // a loss seen by a failed <a/> write: one new session, the old receiver is gone
+	mk(false, "o", "wfail:t,o;wfail:o")
+	endings := []string{"drop", "graceful", "wfail"}
 	attSeqs := []string{"o", "t,o", "x,o", "T,t,o", "r,o", "x,T,o", "p", "t,P"}
 	for _, sm := range []bool{false, true} {
 		for _, e := range endings {
@@ -419,10 +430,10 @@ func (c13) Generate(rng *rand.Rand, tier string, st *Stats) []Case {
 		var lives []string
 		for j := 0; j < k; j++ {
 			a := attSeqs[rng.Intn(6)] // sequences that end in success, so that the next life exists
-			lives = append(lives, endings[rng.Intn(2)]+":"+a)
+			lives = append(lives, endings[rng.Intn(3)]+":"+a)
 		}
 		if rng.Intn(4) == 0 {
-			lives = append(lives, endings[rng.Intn(2)]+":"+attSeqs[6+rng.Intn(2)])
+			lives = append(lives, endings[rng.Intn(3)]+":"+attSeqs[6+rng.Intn(2)])
 		}
 		mk(rng.Intn(2) == 0, "o", strings.Join(lives, ";"))
 		st.Add("random_lives", len(lives))
